@@ -31,11 +31,25 @@ class C14(object):
             n = rng.choice([1, 2, 3, 3, 4]) if tier == 'thorough' else rng.choice([1, 2, 3, 3, 3, 3, 4])
             c = gen.rand_dist_case(rng, nmin=n, nmax=n, amax=2 if n == 4 else 3, bases=['linear', 2], max_support=10,
                                    klasses=('str', 'tuple'), allow_space=False)
+            if n == 3 and rng.random() < 0.12:
+                # independent bits with a rare joint outcome (probability between 1e-6 and 1e-4): results are cut off
+                # below 1e-6 by design, so an outcome this size has to survive
+                qs = [Fraction(rng.choice([3, 4, 45]), 1000 if rng.random() < 0.5 else 100) for _ in range(3)]
+                qs[0], qs[1] = Fraction(45, 1000), Fraction(45, 1000)
+                outs3 = [list(o) for o in itertools.product([0, 1], repeat=3)]
+                pm3 = []
+                for o in outs3:
+                    p_ = Fraction(1)
+                    for b_, q_ in zip(o, qs):
+                        p_ *= q_ if b_ else 1 - q_
+                    pm3.append(p_)
+                c.update({'outs': outs3, 'pmf': [str(p_) for p_ in pm3], 'alphabets': [[0, 1]] * 3, 'space': None,
+                          'sparse': True, 'trim': True, 'style': 'rare-outcome', 'rare': True})
             if c['names']:
                 c['names'] = list('XYZW')[:n]
             gen.avoid_subnull(c)
             # avoid probabilities near the optimiser's clipping threshold
-            if any(0 < Fraction(p) < Fraction(1, 1000) for p in c['pmf']):
+            if not c.get('rare') and any(0 < Fraction(p) < Fraction(1, 1000) for p in c['pmf']):
                 pv, _ = gen.rand_prob_vector(rng, len(c['outs']), 'small')
                 c['pmf'] = [str(p) for p in pv]
             fam = rng.choice(['singletons', 'pairs', 'chain', 'full', 'random', 'nested'] + (['gapped', 'gapped'] if n == 4 else []))
